@@ -83,6 +83,9 @@ func inpkgJobs(thorough bool) []job {
 			add([]job{{Kind: eng, Name: "limit:" + s.String(), Series: number([]series{s})}}, 0)
 		}
 	}
+	for _, s := range spacePBX() {
+		add([]job{{Kind: "trace", Name: "pbx:" + s.String(), Series: number([]series{s})}}, 0)
+	}
 	jobs = append(jobs, job{Kind: "probe", Name: "ack-probe", cost: 1})
 	// heaviest first, then round-robin: a simple longest-processing-time placement
 	sort.SliceStable(jobs, func(i, j int) bool { return jobs[i].cost > jobs[j].cost })
@@ -312,6 +315,15 @@ func tail(b []byte, n int) string {
 }
 
 func finish(r *ev.Run, total *collector, thorough bool) {
+	if engines()["trace"] && os.Getenv("C01_SEAM") != "e2e" {
+		// the straddling alignments (a multi-block trace cut by a primary index roll-over) are the point of the pbx
+		// datasets: without them the run is not a verdict
+		for _, k := range []string{"trace-pbm/blocks=3 align=inner:1+2 stage=mem", "trace-pbm/blocks=3 align=inner:2+1 stage=mem"} {
+			if total.Outcomes[k] == 0 {
+				total.Harness = append(total.Harness, "primary-index alignment not exercised: "+k)
+			}
+		}
+	}
 	for _, h := range total.Harness {
 		fmt.Println("HARNESS:", h)
 	}
@@ -346,6 +358,7 @@ func finish(r *ev.Run, total *collector, thorough bool) {
 		"space_A_series": len(spaceA(maxLen)), "space_B_series": len(spaceB(4, bAlpha)), "space_B_reduced_alphabet_indices": reducedIdx[:bAlpha],
 		"assignments_of_4_points_to_<=3_batches": len(allAssignments(4, 3)),
 		"limit_datasets":                         len(spaceLimit(thorough)), "dict_datasets": len(spaceDict(thorough)),
+		"trace_primary_index_alignment_datasets": len(spacePBX()), "trace_primary_index_alignment_blocks": pbxBlocks,
 	})
 	for _, s := range total.Samples {
 		r.Sample(s)
